@@ -62,21 +62,22 @@ type Ing struct {
 }
 
 type Term struct {
-	Op     string
-	C      *Term
-	Cs     []*Term
-	IDs    []pair
-	M      []pair
-	Sel    Sel
-	Reqs   []Req
-	ID     string
-	Names  []string
-	Kind   string
-	NS     string
-	Name   string
-	Target []pair
-	Srcs   []W
-	Ings   []Ing
+	ViaObject bool // involved: build through InvolvedObjectFilter(object) instead of InvolvedFilter(kind, ns, name)
+	Op        string
+	C         *Term
+	Cs        []*Term
+	IDs       []pair
+	M         []pair
+	Sel       Sel
+	Reqs      []Req
+	ID        string
+	Names     []string
+	Kind      string
+	NS        string
+	Name      string
+	Target    []pair
+	Srcs      []W
+	Ings      []Ing
 }
 
 // ---------------------------------------------------------------- JSON
@@ -266,6 +267,13 @@ func (t *Term) Build() filter.Filter {
 	case "node":
 		return pod.NodeFilter(t.Names...)
 	case "involved":
+		if t.ViaObject {
+			// the object form: kind from the object's TypeMeta, namespace and name from its metadata
+			if t.Kind == "Node" {
+				return event.InvolvedObjectFilter(&corev1.Node{TypeMeta: metav1.TypeMeta{Kind: "Node"}, ObjectMeta: metav1.ObjectMeta{Namespace: t.NS, Name: t.Name}})
+			}
+			return event.InvolvedObjectFilter(&corev1.Pod{TypeMeta: metav1.TypeMeta{Kind: t.Kind}, ObjectMeta: metav1.ObjectMeta{Namespace: t.NS, Name: t.Name}})
+		}
 		return event.InvolvedFilter(t.Kind, t.NS, t.Name)
 	case "selmatch":
 		return service.SelectorMatchFilter(mapOf(t.Target))
@@ -454,7 +462,10 @@ func objectUniverse() []FObj {
 			}
 		}
 	}
-	for _, inv := range [][3]string{{"Pod", "n1", "a"}, {"Pod", "n2", "a"}, {"Service", "n1", "a"}, {"Pod", "n1", "b"}} {
+	for _, nn := range [][2]string{{"n2", "n1"}, {"n1", "n1"}, {"a", "b"}} {
+		objs = append(objs, FObj{Kind: "pod", NS: nn[0], Name: nn[1], Labels: []pair{{"x", "1"}}})
+	}
+	for _, inv := range [][3]string{{"Pod", "n1", "a"}, {"Pod", "n2", "a"}, {"Service", "n1", "a"}, {"Pod", "n1", "b"}, {"Node", "", "w1"}, {"Node", "default", "w1"}, {"Pod", "default", "a"}} {
 		objs = append(objs, FObj{Kind: "event", NS: inv[1], Name: "ev-" + inv[2], Inv: inv})
 	}
 	objs = append(objs, FObj{Kind: "secret", NS: "n1", Name: "a", Labels: []pair{{"x", "1"}, {"y", "1"}}})
@@ -475,6 +486,7 @@ func leafUniverse() (all []*Term, core []*Term) {
 	for i, ids := range [][]pair{
 		{{"n1", "a"}}, {{"n2", "b"}}, {{"n1", ""}}, {{"", "a"}}, {{"n1", "a"}, {"n2", "b"}}, {{"n2", "b"}, {"n1", "a"}},
 		{{"n1", ""}, {"", "b"}}, {{"", "b"}, {"n1", ""}}, {{"n1", "a"}, {"n1", ""}}, {}, {{"n1", "a"}, {"n1", "b"}}, {{"n2", ""}, {"", "c"}, {"n1", "a"}},
+		{{"n1", ""}, {"", "n1"}}, {{"", "n1"}, {"n1", ""}}, {{"a", ""}, {"", "a"}, {"n1", "a"}},
 	} {
 		add(&Term{Op: "nsname", IDs: ids}, i == 0 || i == 2 || i == 6)
 	}
@@ -487,6 +499,8 @@ func leafUniverse() (all []*Term, core []*Term) {
 		{ME: []Req{{"y", "Exists", nil}}}, {ME: []Req{{"y", "DoesNotExist", nil}}},
 		{ML: []pair{{"x", "1"}}, ME: []Req{{"y", "NotIn", []string{"1"}}}}, {ME: []Req{{"x", "In", []string{"2", "1"}}}},
 		{ME: []Req{{"x", "NotIn", []string{"1", "3"}}, {"y", "Exists", nil}}},
+		{ML: []pair{{"x", "1"}}, ME: []Req{{"x", "Exists", nil}}}, {ME: []Req{{"x", "Exists", nil}}},
+		{ME: []Req{{"x", "In", []string{"1", "2"}}, {"x", "NotIn", []string{"2"}}}}, {ME: []Req{{"x", "NotIn", []string{"2"}}}},
 	} {
 		add(&Term{Op: "lsel", Sel: s}, i == 3 || i == 4 || i == 6)
 	}
@@ -501,6 +515,9 @@ func leafUniverse() (all []*Term, core []*Term) {
 	}
 	for i, v := range [][3]string{{"Pod", "n1", "a"}, {"Pod", "n2", "a"}, {"Service", "n1", "a"}} {
 		add(&Term{Op: "involved", Kind: v[0], NS: v[1], Name: v[2]}, i == 0)
+	}
+	for _, v := range [][3]string{{"Node", "", "w1"}, {"Pod", "n1", "a"}, {"Pod", "default", "a"}} {
+		add(&Term{Op: "involved", Kind: v[0], NS: v[1], Name: v[2], ViaObject: true}, false)
 	}
 	for i, m := range [][]pair{{{"x", "1"}}, {{"x", "1"}, {"y", "1"}}, {}} {
 		add(&Term{Op: "selmatch", Target: m}, i == 1)
@@ -542,6 +559,19 @@ func combTerms(tier string, rng *rand.Rand) []*Term {
 	for _, a := range bin {
 		for _, b := range bin {
 			ts = append(ts, &Term{Op: "and", Cs: []*Term{a, b}}, &Term{Op: "or", Cs: []*Term{a, b}})
+		}
+	}
+	// depth 3, systematically over the core leaves: nested composites on either side
+	for _, a := range core {
+		for _, b := range core {
+			for _, c := range core[:6] {
+				for _, o1 := range []string{"and", "or"} {
+					for _, o2 := range []string{"and", "or"} {
+						in := &Term{Op: o2, Cs: []*Term{a, b}}
+						ts = append(ts, &Term{Op: o1, Cs: []*Term{in, c}}, &Term{Op: o1, Cs: []*Term{c, in}})
+					}
+				}
+			}
 		}
 	}
 	// depth 3 by seeded sampling
@@ -656,6 +686,9 @@ func workloadTerms(tier string) []*Term {
 				ts = append(ts, &Term{Op: "involved", Kind: k, NS: ns, Name: nm})
 			}
 		}
+	}
+	for _, v := range [][3]string{{"Node", "", "w1"}, {"Node", "", "w2"}, {"Pod", "n1", "a"}, {"Pod", "default", "a"}, {"Service", "n1", "a"}} {
+		ts = append(ts, &Term{Op: "involved", Kind: v[0], NS: v[1], Name: v[2], ViaObject: true})
 	}
 	for _, m := range [][]pair{{}, {{"x", "1"}}, {{"x", "1"}, {"y", "1"}}, {{"y", "2"}}, {{"x", "2"}, {"y", "2"}}} {
 		ts = append(ts, &Term{Op: "selmatch", Target: m})
